@@ -54,16 +54,19 @@ for d in sorted(glob.glob("seeded/C??-w3-?")):
     m = mall.get(seed)
     lines.append(row([seed, ", ".join(files), first3.get(seed, "?"), own3.get(seed, "?"), (m["caught"].strip() if m else "(not in matrix run)")]))
 seed3_table = "\n".join(lines)
-own4 = json.load(open("seeded/OWN-w4.json")) if os.path.exists("seeded/OWN-w4.json") else {}
-first4 = json.load(open("seeded/OWN-w4-first.json")) if os.path.exists("seeded/OWN-w4-first.json") else {}
-lines = [row(["seed", "what was changed (file)", "own property, first evaluation", "own property now (quick)"]), "|---|---|---|---|"]
-for d in sorted(glob.glob("seeded/C??-w4-?")):
-    seed = os.path.basename(d)
-    patch = open(f"{d}/patch.diff").read()
-    files = sorted(set(re.findall(r"^\+\+\+ b/(\S+)", patch, re.M)))
-    lines.append(row([seed, ", ".join(files), first4.get(seed, "?"), own4.get(seed, "?")]))
-seed4_table = "\n".join(lines)
-body = open("design_as_built.md").read().replace("@SEED3_TABLE@", seed3_table).replace("@SEED4_TABLE@", seed4_table).replace("@SEED2_TABLE@", seed2_table).replace("@SEED_TABLE@", seed_table).replace("@MUTANT_TABLE@", mut_table)
+def wave_table(w):
+    own = json.load(open(f"seeded/OWN-w{w}.json")) if os.path.exists(f"seeded/OWN-w{w}.json") else {}
+    first = json.load(open(f"seeded/OWN-w{w}-first.json")) if os.path.exists(f"seeded/OWN-w{w}-first.json") else {}
+    lines = [row(["seed", "what was changed (file)", "own property, first evaluation", "own property now (quick)"]), "|---|---|---|---|"]
+    for d in sorted(glob.glob(f"seeded/C??-w{w}-?")):
+        seed = os.path.basename(d)
+        patch = open(f"{d}/patch.diff").read()
+        files = sorted(set(re.findall(r"^\+\+\+ b/(\S+)", patch, re.M)))
+        lines.append(row([seed, ", ".join(files), first.get(seed, "?"), own.get(seed, "?")]))
+    return "\n".join(lines)
+seed4_table = wave_table(4)
+seed5_table = wave_table(5)
+body = open("design_as_built.md").read().replace("@SEED3_TABLE@", seed3_table).replace("@SEED4_TABLE@", seed4_table).replace("@SEED5_TABLE@", seed5_table).replace("@SEED2_TABLE@", seed2_table).replace("@SEED_TABLE@", seed_table).replace("@MUTANT_TABLE@", mut_table)
 d = open("DESIGN.md").read()
 start = d.find("## A. As built")
 if start >= 0:
